@@ -49,3 +49,10 @@
 (define-fun trimQuotes ((s String)) String
   (let ((a (ite (str.prefixof "'" s) (str.substr s 1 (- (str.len s) 1)) s)))
     (ite (str.suffixof "'" a) (str.substr a 0 (- (str.len a) 1)) a)))
+; strings.ToLower, named; ASSUMED: the decimal rendering of an integer has no letters
+(declare-fun lowerS (String) String)
+(assert (forall ((n Int)) (! (= (lowerS (int_to_str n)) (int_to_str n)) :pattern ((lowerS (int_to_str n))))))
+(define-fun boolTextTrue ((s String)) Bool (or (= s "true") (= s "t") (= s "yes") (= s "y") (= s "1") (= s "1.0")))
+(define-fun boolTextFalse ((s String)) Bool (or (= s "false") (= s "f") (= s "no") (= s "n") (= s "0") (= s "0.0")))
+; hexadecimal digit (as a byte / code point)
+(define-fun isHexB ((c Int)) Bool (or (and (<= 48 c) (<= c 57)) (and (<= 97 c) (<= c 102)) (and (<= 65 c) (<= c 70))))
